@@ -150,7 +150,7 @@ def run(tier, seed):
     ok, info = prep(PROP)
     ob, dis = proof_gate(rep, PROP, ok, info)
     rng = random.Random(seed)
-    n = 1500 if tier == "quick" else 6000
+    n = 1500 if tier == "quick" else 15000
     inputs = [gen_input(rng) for _ in range(n)]
     res = run_harness([{"op": "generate", "files": f, "summary": True} for f in inputs])
     root = tempfile.mkdtemp(prefix="c01mod", dir=os.path.join(BUILD, "tmp"))
